@@ -150,11 +150,17 @@ func allLayouts(n int) [][]int {
 	return out
 }
 
+// c17Only, when set (replay), keeps only the violations of one named evaluation.
+var c17Only string
+
 func c17Run(rc *engine.RunCtx) *engine.Result {
 	res := engine.NewResult()
 	known := rc.Known.Matcher(rc.Property)
 	report := func(v *engine.Violation, name string) {
-		v.Path = []string{name}
+		if c17Only != "" && name != c17Only {
+			return
+		}
+		v.Path = []string{name, "tier=" + rc.Tier} // the families run in the tier's order: process-wide memory of the code under test is part of the witness
 		v.Tags["search"] = "formats"
 		if id, ok := known(v); ok {
 			res.KnownHits[id]++
@@ -540,12 +546,23 @@ func c17HandlerLayouts(report func(*engine.Violation, string), states, evals *in
 
 func init() {
 	register(&Check{ID: "C17", Level: "model_checking",
-		Run: c17Run,
+		// the formats are package-level functions: what they keep in memory is per process, so a witness
+		// is confirmed in new processes
+		FreshProcessReplay: true,
+		Run:                c17Run,
 		Replay: func(kind string, path []string) ([]string, *engine.Violation, error) {
 			rc := &engine.RunCtx{Property: "C17", Tier: "thorough", Known: &engine.KnownFile{}, Start: time.Now(), Budget: time.Minute}
+			if len(path) == 2 && path[1] == "tier=quick" {
+				rc.Tier = "quick"
+			}
+			if len(path) == 0 {
+				return nil, nil, nil
+			}
+			c17Only = path[0]
+			defer func() { c17Only = "" }()
 			res := c17Run(rc)
 			for _, v := range res.Violations {
-				if len(path) == 1 && len(v.Path) == 1 && v.Path[0] == path[0] {
+				if len(v.Path) >= 1 && v.Path[0] == path[0] {
 					return []string{"violation"}, v, nil
 				}
 			}
